@@ -259,6 +259,26 @@ ADDENDA = {
     "C19": "enum: keys are interpreted (member name compared with the parsed label); FlagsEnum over every width 1,2,3,4,8 x byte order with a flag in every byte; all ordered pairs of members that declare something schema-global in one schema.",
 }
 
+# round 4 (DESIGN 11)
+ADDENDA_R4 = {
+ "C01": "Adapter/tunnel classes outside the term language (ExprAdapter, Slicing, Indexing, NamedTuple, Transformed, Restreamed, LazyBound...) and the size axis (every format holding 63..65536 units of data, up to 131073 in thorough).",
+ "C03": "Range-boundary invalid integers per field, Select between record layouts, zero-size wrapper terms, length-prefix capacity boundaries, and the size axis of mc/scale.py (26 formats x 11 sizes quick / 27 sizes thorough).",
+ "C05": "Sizes that depend on _index.",
+ "C06": "Truncation on the size axis (24 constructs with an n-byte fixed part, cut points at both ends and around 4096/8192 from the end); variable-length integers beyond the int->str digit limit.",
+ "C08": "Every nested region is followed inside its parent by Tell + GreedyBytes; Seek observers; 16 region kinds on the size axis (payloads of 63..65536 bytes).",
+ "C10": "swapped given as a context expression; single fields and splits of 127..4096 bits.",
+ "C11": "Attribute/item paths through member names that collide with the expression classes' own attributes and with context entries.",
+ "C12": "Integer laws also at widths 31..129 bytes.",
+ "C13": "Const built under every sequence of <= 3 contexts with context-dependent encoders; membership collections that are not element-wise (bytes, str, range, dict, custom).",
+ "C14": "Every entry point (build_stream/parse_stream at an offset, build_file/parse_file); covered regions on the size axis with corruptions next to every 4096-byte boundary.",
+ "C15": "Keys of length 1..257 and rotations on the size axis (63..65536 bytes).",
+ "C16": "Suspended iterators (two, advanced step by step between other accesses); lazies inside sub-streams at non-zero offsets; results with 63..8193 elements.",
+ "C17": "Every call compared with its result in a brand-new interpreter; callers editing returned values in place; the same call 200 times then every other call; signedness twins, LazyBound, context-dependent encoders, region reuse in the alphabet and the thread pairs.",
+ "C20": "Entries named like every public dict/Container method; deep copies over exotic leaves (bytearray, set, array, ordinary objects, tuples holding them) at depth 1..3; hexdump lengths around 16**4 for six line sizes.",
+}
+for _k, _v in ADDENDA_R4.items():
+    ADDENDA[_k] = (ADDENDA[_k] + " " if _k in ADDENDA else "") + _v
+
 PENDING_REASON = "check not built yet in this round (see DESIGN.md §7 build order); it will be decided by the same bounded-exhaustive engine"
 
 
